@@ -265,3 +265,118 @@ Example C06_ts_group_notexists_v0_refuted :
   fst (aggregate q (frac_direct_v0 q ds)) = [] /\
   fst (aggregate q (eval_tree q (Leaf ds))) = [Bucket 2 1000000 MNaN [] 1].
 Proof. split; [reflexivity|]. split; [eexists; split; reflexivity|]. split; reflexivity. Qed.
+
+(* ================================================================================================
+   The FLOAT64 data path (ModelFloat.v).  [eval_stree t] is what ONE bin goes through: every leaf of t is
+   one fraction's sequence of InsertNTimes(num, cnt) calls on a fresh container (Min/Max by Go's min/max,
+   Sum += num * float64(cnt)), inner nodes are SamplesContainer.Merge in the shape of the merge tree; all
+   operations are IEEE 754 binary64, round to nearest even (Coq's SpecFloat operations, proved equal to
+   Flocq's Bplus/Bmult/Bdiv/Bcompare/binary_normalize in ProofsFloat.v).  The correspondence run evaluates
+   exactly this function ([bin_float q k t] = [eval_stree (project q k t)]) on the recorded merge tree and
+   compares Min/Max/Sum/Avg bit for bit.  [SF2R radix2 x] is the real value of x, [rsum es] the exact real
+   sum of the entries (value * count), [repr r] = r is a binary64 number (generic_format for FLT(-1074, 53),
+   |r| < 2^1024).  These theorems mention R and therefore depend on the standard library's real-number
+   axioms (see Print Assumptions); the executable model does not. *)
+From Coq Require Import Reals SpecFloat.
+From Flocq Require Import Core IEEE754.BinarySingleNaN.
+From C06 Require Import ModelFloat ProofsFloat.
+
+(* Sum is EXACT whenever every number the tree forms (float64(cnt), num*cnt, every running sum of a fraction,
+   every sum formed by a Merge) is representable — for every merge tree; hence two merge trees over the same
+   multiset of entries that both satisfy this give the same Sum (this is what transfers C06_merge_exact /
+   C06_any_merge_order from the exact-integer model to float64); integers of magnitude <= 2^53 are
+   representable, so integer-valued fields whose partial sums stay within +-2^53 are always exact. *)
+Theorem C06_float_sum_exact_when_representable :
+  (forall t, Forall entry_ok (sentries t) -> all_repr t ->
+     sf_valid (f_sum (eval_stree t)) = true /\ sf_finite (f_sum (eval_stree t)) = true /\
+     SF2R radix2 (f_sum (eval_stree t)) = rsum (sentries t)) /\
+  (forall t1 t2, Permutation (sentries t1) (sentries t2) ->
+     Forall entry_ok (sentries t1) -> all_repr t1 -> all_repr t2 ->
+     SF2R radix2 (f_sum (eval_stree t1)) = SF2R radix2 (f_sum (eval_stree t2))) /\
+  (forall z, (Z.abs z <= 2 ^ 53)%Z -> repr (IZR z)).
+Proof. exact ProofsFloat.float_sum_exact_when_representable. Qed.
+Print Assumptions C06_float_sum_exact_when_representable.
+
+(* Min / Max: for every merge tree over finite values (parseNum admits no NaN/Inf) with at least one entry,
+   Min and Max are finite binary64 numbers whose values are the exact minimum / maximum of all values: one of
+   the values, and <= / >= every value. *)
+Theorem C06_float_minmax_exact :
+  forall t, Forall entry_ok (sentries t) -> sentries t <> [] ->
+    sf_valid (f_min (eval_stree t)) = true /\ sf_finite (f_min (eval_stree t)) = true /\
+    sf_valid (f_max (eval_stree t)) = true /\ sf_finite (f_max (eval_stree t)) = true /\
+    is_min (SF2R radix2 (f_min (eval_stree t))) (map val (sentries t)) /\
+    is_max (SF2R radix2 (f_max (eval_stree t))) (map val (sentries t)).
+Proof. exact ProofsFloat.float_minmax_exact. Qed.
+Print Assumptions C06_float_minmax_exact.
+
+(* Avg: for a container with a finite Sum and 0 < Total <= 2^53, the reported value is Sum / float64(Total)
+   as binary64 division gives it, it is finite, and its value is round-to-nearest-even of the real quotient;
+   when the Sum is exact (previous theorem) it is the correctly rounded true mean. *)
+Theorem C06_float_avg_is_rounded_quotient :
+  (forall s, sf_valid (f_sum s) = true -> sf_finite (f_sum s) = true -> (0 < f_total s <= 2 ^ 53)%Z ->
+     fvalue FAvg s = fdiv (f_sum s) (of_int (f_total s)) /\
+     sf_valid (fvalue FAvg s) = true /\ sf_finite (fvalue FAvg s) = true /\
+     SF2R radix2 (fvalue FAvg s) = round radix2 fexp64 ZnearestE (SF2R radix2 (f_sum s) / IZR (f_total s))) /\
+  (forall t, Forall entry_ok (sentries t) -> all_repr t -> (0 < cnt_sum (sentries t) <= 2 ^ 53)%Z ->
+     SF2R radix2 (fvalue FAvg (eval_stree t)) =
+     round radix2 fexp64 ZnearestE (rsum (sentries t) / IZR (cnt_sum (sentries t)))).
+Proof. exact ProofsFloat.float_avg_is_rounded_quotient. Qed.
+Print Assumptions C06_float_avg_is_rounded_quotient.
+
+(* fexp64 is the binary64 exponent function *)
+Example C06_fexp64_is_binary64 : fexp64 = FLT_exp (-1074) 53.
+Proof. exact ProofsFloat.fexp64_FLT. Qed.
+
+(* Error bound, PARTIAL: one fraction without group (a left-to-right chain, every document inserted once):
+   if no running sum overflows, |Sum - exact sum| <= ((1+u)^n - 1) * sum|x_i| with u = 2^-53 (u64_val).
+   Full statement NOT proved (kept as comment): for every merge tree t with n entries whose intermediate sums
+   do not overflow and whose products num*float64(cnt) neither overflow nor underflow,
+     Rabs (SF2R radix2 (f_sum (eval_stree t)) - rsum (sentries t)) <= ((1+u)^(n + depth t + 1) - 1) * rabs_sum (sentries t).
+   Missing: the relative-error step for the rounded product num*float64(cnt) (needs an underflow side
+   condition) and the induction over Merge nodes (same step lemma, step_bound).  The correspondence's spec
+   checker uses the coarser executable bound N*2^-52*sum|x| + N units of 2^-1074 on every case. *)
+Theorem C06_float_sum_error_bound_partial :
+  forall es, Forall entry_one es -> chain_finite fnew es ->
+    sf_finite (f_sum (eval_leaf es)) = true /\
+    (Rabs (SF2R radix2 (f_sum (eval_leaf es)) - rsum es) <= ((1 + u64) ^ length es - 1) * rabs_sum es)%R.
+Proof. exact ProofsFloat.float_sum_error_bound_chain. Qed.
+Print Assumptions C06_float_sum_error_bound_partial.
+
+Example C06_u64_is_2pow_minus53 : u64 = bpow radix2 (-53).
+Proof. exact ProofsFloat.u64_val. Qed.
+
+(* float64 addition is not associative: the three decimals 0.1, 0.2, 0.3 (as strconv.ParseFloat gives them),
+   one per fraction, merged as (f1+f2)+f3 give Sum 0.6000000000000001, merged as f1+(f2+f3) give 0.6 — same
+   multiset of values, different bit patterns.  Bit-exact order-independence of Sum/Avg can therefore NOT be
+   claimed for general decimals; it holds under the hypothesis of C06_float_sum_exact_when_representable. *)
+Example C06_float_sum_order_dependence_refuted_example :
+  let a := sf_of_bits 0x3FB999999999999A in let b := sf_of_bits 0x3FC999999999999A in
+  let c := sf_of_bits 0x3FD3333333333333 in
+  let t1 := SNode (SNode (SLeaf [(a, 1%Z)]) (SLeaf [(b, 1%Z)])) (SLeaf [(c, 1%Z)]) in
+  let t2 := SNode (SLeaf [(a, 1%Z)]) (SNode (SLeaf [(b, 1%Z)]) (SLeaf [(c, 1%Z)])) in
+  Permutation (sentries t1) (sentries t2) /\
+  bits_of_sf (f_sum (eval_stree t1)) = 0x3FE3333333333334%Z /\
+  bits_of_sf (f_sum (eval_stree t2)) = 0x3FE3333333333333%Z /\
+  f_sum (eval_stree t1) <> f_sum (eval_stree t2).
+Proof.
+  cbv zeta. split; [apply Permutation_refl|]. split; [vm_compute; reflexivity|]. split; [vm_compute; reflexivity|].
+  vm_compute. discriminate.
+Qed.
+
+(* non-vacuity of the chain bound's hypotheses: the same three decimals in one fraction *)
+Example C06_float_chain_nonvacuous :
+  let es := [(sf_of_bits 0x3FB999999999999A, 1%Z); (sf_of_bits 0x3FC999999999999A, 1%Z); (sf_of_bits 0x3FD3333333333333, 1%Z)] in
+  Forall entry_one es /\ chain_finite fnew es.
+Proof.
+  cbv zeta. split; [repeat constructor|]. vm_compute. repeat split.
+Qed.
+
+(* non-vacuity of entry_ok / all_repr / the Total bounds: integer values 3 (twice) and 5 in one fraction, -4 in
+   another: every number formed is an integer of small magnitude *)
+Example C06_float_exact_nonvacuous :
+  let t := SNode (SLeaf [(sf_of_bits 0x4008000000000000, 2%Z); (sf_of_bits 0x4014000000000000, 1%Z)])
+                 (SLeaf [(sf_of_bits 0xC010000000000000, 1%Z)]) in
+  Forall entry_ok (sentries t) /\ all_repr t /\ sentries t <> [] /\ (0 < cnt_sum (sentries t) <= 2 ^ 53)%Z /\
+  bits_of_sf (f_sum (eval_stree t)) = 0x401C000000000000%Z /\       (* 7.0 *)
+  bits_of_sf (fvalue FAvg (eval_stree t)) = 0x3FFC000000000000%Z.   (* 1.75 *)
+Proof. exact ProofsFloat.exact_nonvacuous. Qed.
